@@ -46,11 +46,19 @@ class C10Spec(explore.Spec):
 
     def configs(self, tier):
         versions = ("1.4", "2.2") if tier == "quick" else ("1.4", "1.5", "2.0", "2.1", "2.2")
-        return [{"version": v, "cb": None} for v in versions] + [{"version": "2.2", "cb": None, "flavour": "async"}]
+        return [{"version": v, "cb": None} for v in versions] + [{"version": "2.2", "cb": None, "flavour": "async"}, {"version": "1.4", "cb": None, "focus": "fw0", "depth": 6}]
 
     def alphabet(self, cfg):
         v = cfg["version"]
         st = stream_lines()
+        if cfg.get("focus") == "fw0":
+            # firmware type 0 / version 0 are values like any other: a small alphabet around them
+            return [
+                ("fw", 2, 0, 0, "F1"), ("fw", (1, 2), 0, 0, None), ("fw", 1, 0, 1, "F2"), ("fw", 1, 1, 0, "F2"),
+                alpha.rx(st["FCA"]), alpha.rx(st["FCB"]),
+                alpha.rx("2;255;4;0;2;" + words_to_hex(0, 0, 0)), alpha.rx("1;255;4;0;2;" + words_to_hex(0, 0, 7)),
+                alpha.rx("1;255;4;0;2;" + words_to_hex(0, 1, 0)), alpha.rx("1;255;4;0;2;" + words_to_hex(1, 0, 0)),
+            ] + alpha.events(v, ["SB0", "PB"])
         names = QUICK if self.tier == "quick" else ALL
         evs = [alpha.rx(st[n]) for n in names]
         evs += alpha.events(v, ["SA0", "SB0", "PA", "PB", "CA1", "CA0", "WA"])  # WA (2.x): A announces smart sleep  # CA1: a NEW child presents itself (not a node presentation)
@@ -68,8 +76,6 @@ class C10Spec(explore.Spec):
             ("fw", 1, "x", 1, "F1"),
             ("fw", 1, "1", "1", "F1"),  # type/version as convertible strings (config file, service call)
             ("fw", 2, "1", " 1", None),
-            ("fw", 2, 0, 0, "F1"),  # firmware type 0 / version 0 are values like any other
-            alpha.rx("2;255;4;0;2;" + words_to_hex(0, 0, 0)),
         ]
         return evs
 
